@@ -270,7 +270,7 @@ def judge(chk: Check, records, name="judge", nchunks=48, timeout=2400):
             f.write(json.dumps({k: v for k, v in r.items() if k not in ("cost", "meta")}) + "\n")
     chk.tlc("StatsJudge", "SPECIFICATION Spec\nCHECK_DEADLOCK FALSE\n",
             env={"STATS_RECS": str(wd / "recs.ndjson"), "STATS_OUT": str(out)}, name=f"StatsJudge-{name}",
-            timeout=timeout)
+            timeout=timeout, jvm_opts=("-Xmx8g",))
     res = {}
     for c in range(1, nchunks + 1):
         p = out / f"{c}.json"
